@@ -161,8 +161,10 @@ theorem mark_counter_self (t : Tracker) (k : Key) (h : t.active ≠ 0) : t.globa
 @[simp] theorem register_active (t : Tracker) (k : Key) : ((t.register k).1).active = (t.active + 1) % two64 := by
   simp [Tracker.register]
 @[simp] theorem register_base (t : Tracker) (k : Key) : (t.register k).2 = t.counter k := rfl
-@[simp] theorem unregister_counter (t : Tracker) (k' : Key) : (t.unregister).counter k' = t.counter k' := rfl
-@[simp] theorem unregister_global (t : Tracker) : (t.unregister).global = t.global := rfl
+@[simp] theorem unregister_counter (t : Tracker) (k' : Key) : (t.unregister).counter k' = t.counter k' := by
+  simp [Tracker.unregister, Tracker.counter]
+@[simp] theorem unregister_global (t : Tracker) : (t.unregister).global = t.global := by
+  simp [Tracker.unregister]
 @[simp] theorem unregister_active (t : Tracker) : (t.unregister).active = (t.active + (two64 - 1)) % two64 := by
   simp [Tracker.unregister]
 
